@@ -32,12 +32,15 @@ def _check_loops_from_task(task: Task, visited_tasks: Set[int], validated: Set[i
     if task.id in visited_tasks:
         raise RuntimeError(
             "Found circle",
-            [str(t) + "-->" for t in visited_tasks] + [str(task.id) + ":" + task.name]
+            [str(t) + "-->" for t in visited_tasks] + [f"{task.id}:{task.name}"]
         )
 
     visited_tasks.add(task.id)
 
-    for s in task.predecessors:
+    # Task waits for its own predecessors, for predecessors of all its parents and (summary task) for its children
+    waits_for = [p for t in [task] + [t for t in task.all_parents] for p in t.predecessors]
+    waits_for += [ch for ch in task.children]
+    for s in waits_for:
         _check_loops_from_task(s, visited_tasks, validated)
 
     visited_tasks.remove(task.id)
